@@ -51,12 +51,15 @@ open Url
 /-! ### 1. The token view of the skeleton
 
 `Tok.lit b` is a text written as is, `Tok.hole n` is the placeholder `{n}`.  `skeletonToks r wo`
-has one token per route element (identifier ↦ `lit`; `{bind}` and `{name: …, …}` ↦ `hole` with the
-FIRST parameter's name) and a `lit "/"` per segment. -/
+has the tokens of every route element (identifier ↦ `lit`; `{bind}` ↦ `hole`; a parameter list
+`{a: …, b: …}` ↦ one `hole` per bind parameter: the first; and, when the first is regex-valued, every
+later regex-valued one — a list whose first value is a literal, i.e. a match-all `{p: **, capture: 2}`,
+binds only its first parameter) and a `lit "/"` per segment; an
+empty buffer (no segment, or the first one optional and not asked for) becomes `lit "/"`. -/
 
 /-- the buffer `URLPath` builds is the rendering of the token list -/
 theorem skeleton_tokens (r : Route) (wo : Bool) : skeleton r wo = render (skeletonToks r wo) :=
-  skeleton_go_eq wo r.segs
+  skeleton_eq r wo
 
 /- `BraceFree r` (decidable, `Proofs/Url.lean`): every identifier text and bind name of `r` contains
    neither `{` nor `}`, and no parameter list is empty.  Every route the parser produces satisfies
@@ -66,7 +69,7 @@ theorem skeleton_tokens (r : Route) (wo : Bool) : skeleton r wo = render (skelet
 /-- the tokens of a brace-free route are brace-free -/
 theorem skeletonToks_braceFree (r : Route) (wo : Bool) (h : BraceFree r = true) :
     (skeletonToks r wo).all Tok.braceFree = true :=
-  skeletonToks_go_braceFree wo r.segs h
+  orRoot_braceFree _ (skeletonToks_go_braceFree wo r.segs h)
 
 /-! ### 2. Token-wise substitution -/
 
@@ -155,11 +158,13 @@ theorem urlPath_perm (r : Route) (vals vals' : List (Bytes × Bytes)) (wo : Bool
 /-! ### 4. Annotations are dropped; the optional segment only when asked -/
 
 /-- "drops regex and capture annotations": the token list — hence the URL — is that of the route
-    with every parameter list `{name: …, …}` cut down to the plain bind `{name}` of its first name;
-    no regex text, literal alternative, capture count or further parameter can influence it -/
+    with every parameter list `{a: …, b: …}` turned into the sequence `{a}{b}` of plain binds of its
+    bind parameters (`stripElem`); which parameters are binds depends only on whether the values
+    are regexes or literals — no regex text, literal text or capture limit can influence the URL -/
 theorem annotations_dropped (r : Route) (wo : Bool) :
-    skeletonToks r wo = skeletonToks (stripRoute r) wo :=
-  (skeletonToks_go_strip wo r.segs).symm
+    skeletonToks r wo = skeletonToks (stripRoute r) wo := by
+  show orRoot _ = orRoot (skeletonToks.go wo (stripRoute r).segs)
+  rw [stripRoute, skeletonToks_go_strip]
 
 /-- the stripped route really carries no annotation: its only parameter lists are empty ones -/
 theorem stripRoute_no_annotations (r : Route) :
@@ -167,15 +172,14 @@ theorem stripRoute_no_annotations (r : Route) :
   intro s hs e he ps hps
   simp only [stripRoute, List.mem_map] at hs
   obtain ⟨s0, _, rfl⟩ := hs
-  simp only [List.mem_map] at he
-  obtain ⟨e0, _, rfl⟩ := he
-  cases e0 with
-  | ident t => cases hps
-  | bind n => cases hps
-  | params qs =>
-    cases qs with
-    | nil => simp only [stripElem] at hps; cases hps; rfl
-    | cons q qs => cases hps
+  simp only [List.mem_flatMap] at he
+  obtain ⟨e0, _, he0⟩ := he
+  rcases stripElem_binds e0 e he0 with ⟨h, hno⟩ | ⟨n, h⟩
+  · subst h hps
+    cases ps with
+    | nil => rfl
+    | cons q qs => exact absurd rfl (hno q qs)
+  · rw [h] at hps; cases hps
 
 theorem urlPath_annotations_dropped (r : Route) (vals : List (Bytes × Bytes)) (wo : Bool) :
     urlPath r vals wo = urlPath (stripRoute r) vals wo := by
@@ -183,21 +187,58 @@ theorem urlPath_annotations_dropped (r : Route) (vals : List (Bytes × Bytes)) (
   rw [skeleton_tokens, skeleton_tokens, annotations_dropped]
 
 /-- "includes the optional segment only when asked": without the flag the skeleton stops before the
-    first optional segment — it is the full skeleton of the route cut there -/
+    first optional segment — it is the full skeleton of the route cut there (both sides are `/`
+    when nothing is left) -/
 theorem optional_only_when_asked (r : Route) :
     skeleton r false = skeleton ⟨r.segs.takeWhile fun s => !s.optional⟩ true := by
   rw [skeleton_tokens, skeleton_tokens]
-  show render (skeletonToks.go false r.segs) = render (skeletonToks.go true _)
+  show render (orRoot (skeletonToks.go false r.segs)) = render (orRoot (skeletonToks.go true _))
   rw [skeletonToks_go_false, skeletonToks_go_true]
 
-/-- with the flag every segment is covered, optional or not -/
-theorem optional_included_when_asked (r : Route) :
-    skeletonToks r true = r.segs.flatMap segToks :=
-  skeletonToks_go_true r.segs
+/-- "the route without its only, optional segment is the root path": when the first segment is
+    optional and not asked for, the buffer is `/` -/
+theorem optional_fallback_root (r : Route) (s : Segment) (rest : List Segment)
+    (h : r.segs = s :: rest) (ho : s.optional = true) : skeleton r false = B "/" := by
+  rw [skeleton_tokens]
+  show render (orRoot (skeletonToks.go false r.segs)) = _
+  rw [h, skeletonToks_go_opt s rest ho]
+  simp [orRoot, render, Tok.render]
 
-theorem optional_excluded_otherwise (r : Route) :
-    skeletonToks r false = (r.segs.takeWhile fun s => !s.optional).flatMap segToks :=
-  skeletonToks_go_false r.segs
+/-- the same for the URL, whatever the values (no guard needed: no key `{…}` occurs in `/`) -/
+theorem urlPath_fallback_root (r : Route) (s : Segment) (rest : List Segment)
+    (h : r.segs = s :: rest) (ho : s.optional = true) (vals : List (Bytes × Bytes)) :
+    urlPath r vals false = B "/" := by
+  unfold urlPath
+  rw [optional_fallback_root r s rest h ho, B_slash]
+  have := go_lit (keyed vals) (keyed_start vals) [] [47] (by decide) 1 (by simp)
+  show replaceAll.go (keyed vals) 1 [47] = [47]
+  simpa [go_nil] using this
+
+/-- the token lists in general: the segments covered, or `/` if that is nothing -/
+theorem skeletonToks_true_eq (r : Route) : skeletonToks r true = orRoot (r.segs.flatMap segToks) := by
+  show orRoot _ = _
+  rw [skeletonToks_go_true]
+
+theorem skeletonToks_false_eq (r : Route) :
+    skeletonToks r false = orRoot ((r.segs.takeWhile fun s => !s.optional).flatMap segToks) := by
+  show orRoot _ = _
+  rw [skeletonToks_go_false]
+
+/-- with the flag every segment is covered, optional or not -/
+theorem optional_included_when_asked (r : Route) (hne : r.segs ≠ []) :
+    skeletonToks r true = r.segs.flatMap segToks := by
+  obtain ⟨s, rest, h⟩ := List.exists_cons_of_ne_nil hne
+  show orRoot _ = _
+  rw [orRoot_of_ne (by rw [h]; exact skeletonToks_go_ne true s rest (Or.inr rfl)),
+    skeletonToks_go_true]
+
+/-- without it (first segment not optional) exactly the segments before the first optional one -/
+theorem optional_excluded_otherwise (r : Route) (s : Segment) (rest : List Segment)
+    (h : r.segs = s :: rest) (hs : s.optional = false) :
+    skeletonToks r false = (r.segs.takeWhile fun s => !s.optional).flatMap segToks := by
+  show orRoot _ = _
+  rw [orRoot_of_ne (by rw [h]; exact skeletonToks_go_ne false s rest (Or.inl hs)),
+    skeletonToks_go_false]
 
 /-! ### 5. `router.URLPath`: the `k v k v …` argument list
 
@@ -296,22 +337,45 @@ request's captured parameters).  For a route of static texts and `{bind}` placeh
 and texts are slash-free, the URL built with the optional segment splits — exactly as `Tree.Match`
 splits a request path: `splitSlash ∘ trimLeftSlash` — into the instantiated segments. -/
 
-theorem instElem_ident (vals : List (Bytes × Bytes)) (s : Bytes) : instElem vals (.ident s) = s := rfl
+theorem instElem_ident (vals : List (Bytes × Bytes)) (s : Bytes) : instElem vals (.ident s) = s := by
+  simp [instElem, elemToks, Tok.subst]
 
 theorem instElem_bind (vals : List (Bytes × Bytes)) (n v : Bytes) (h : vals.lookup n = some v) :
     instElem vals (.bind n) = v := by
-  simp [instElem, elemTok, Tok.subst, h]
+  simp [instElem, elemToks, Tok.subst, h]
+
+/-- a parameter list gives the values of its bind parameters, concatenated: the first one, then
+    (`laterHoles`) every later regex-valued one if the first is regex-valued -/
+theorem instElem_params (vals : List (Bytes × Bytes)) (p : BindParam) (ps : List BindParam) :
+    instElem vals (.params (p :: ps)) =
+      Tok.subst vals (.hole p.ident) ++ (laterHoles p ps).flatMap (Tok.subst vals) := rfl
+
+/-- a list whose first value is a literal (a match-all `{name: **, capture: 2}`) stands for the
+    value of its first name alone, whatever the further parameters are -/
+theorem instElem_params_lit (vals : List (Bytes × Bytes)) (p : BindParam) (ps : List BindParam)
+    (v t : Bytes) (hp : p.val = .lit t) (h : vals.lookup p.ident = some v) :
+    instElem vals (.params (p :: ps)) = v := by
+  rw [instElem_params, laterHoles_lit p ps t hp]
+  simp [Tok.subst, h]
+
+/-- a regex list: the value of the first name, then those of the later regex-valued parameters -/
+theorem instElem_params_re (vals : List (Bytes × Bytes)) (p : BindParam) (ps : List BindParam)
+    (t : Bytes) (hp : p.val = .re t) :
+    instElem vals (.params (p :: ps)) =
+      Tok.subst vals (.hole p.ident) ++ (regexHoles ps).flatMap (Tok.subst vals) := by
+  rw [instElem_params, laterHoles_re p ps t hp]
 
 /-- the URL is `/seg₁/seg₂/…` with the segments instantiated -/
 theorem urlPath_segments (r : Route) (vals : List (Bytes × Bytes))
-    (hr : BraceFree r = true) (hv : vals.all (fun p => noBrace p.1) = true) :
+    (hr : BraceFree r = true) (hv : vals.all (fun p => noBrace p.1) = true) (hne : r.segs ≠ []) :
     urlPath r vals true = r.segs.flatMap fun s => slash :: instSeg vals s := by
-  rw [urlPath_tokenwise r vals true hr hv, optional_included_when_asked, subst_flatMap_segToks]
+  rw [urlPath_tokenwise r vals true hr hv, optional_included_when_asked r hne,
+    subst_flatMap_segToks]
 
 theorem urlPath_join (r : Route) (vals : List (Bytes × Bytes))
     (hr : BraceFree r = true) (hv : vals.all (fun p => noBrace p.1) = true) (hne : r.segs ≠ []) :
     urlPath r vals true = slash :: joinSlash (r.segs.map (instSeg vals)) := by
-  rw [urlPath_segments r vals hr hv, ← flatMap_slash_eq_join _ (by simpa using hne),
+  rw [urlPath_segments r vals hr hv hne, ← flatMap_slash_eq_join _ (by simpa using hne),
     List.flatMap_map]
 
 /-- splitting the built URL the way the matcher splits a path gives back the instantiated
@@ -365,13 +429,13 @@ example : DistinctKeys exVals := by decide
 example : urlPath exRoute exVals true =
     [47, 117, 47, 123, 121, 125, 45, 125, 123, 47, 123, 122, 125] := by
   rw [urlPath_tokenwise exRoute exVals true (by decide) (by decide)]
-  simp [exRoute, exVals, skeletonToks, skeletonToks.go, segToks, elemTok, Tok.subst, B_slash,
+  simp [exRoute, exVals, skeletonToks, skeletonToks.go, segToks, elemToks, laterHoles, regexHoles, orRoot, Tok.subst, B_slash,
     B_lbrace, B_rbrace, List.lookup]
 
 /-- an empty value, optional segment not asked for: `/u/` then `-{y}` -/
 example : urlPath exRoute [([120], [])] false = [47, 117, 47, 45, 123, 121, 125] := by
   rw [urlPath_tokenwise exRoute _ false (by decide) (by decide)]
-  simp [exRoute, skeletonToks, skeletonToks.go, segToks, elemTok, Tok.subst, B_slash,
+  simp [exRoute, skeletonToks, skeletonToks.go, segToks, elemToks, laterHoles, regexHoles, orRoot, Tok.subst, B_slash,
     B_lbrace, B_rbrace, List.lookup]
 
 /-- any order of the map gives the same URL -/
@@ -400,7 +464,36 @@ example : ({ trees := [], named := [([110], exRoute)] } : Router).urlPath [110]
     some [47, 117, 47, 98, 45, 123, 121, 125, 47, 123, 122, 125] := by
   rw [router_urlPath_tokenwise _ [110] _ exRoute rfl (by decide)
     (by rw [B_withOptional, B_true]; decide)]
-  simp [exRoute, lastVal, skeletonToks, skeletonToks.go, segToks, elemTok, B_slash,
+  simp [exRoute, lastVal, skeletonToks, skeletonToks.go, segToks, elemToks, laterHoles, regexHoles, orRoot, B_slash,
     B_lbrace, B_rbrace, B_withOptional, B_true]
+
+/-- `/{a: /x+/, b: /y+/}-{r: **, capture: 2}`: every bind parameter of a list gets its value
+    (`a ↦ "1"`, `b ↦ "{a}"` — not re-scanned, `r ↦ "p/q"`), the capture limit `capture` is no bind even
+    though a value is supplied for it: `/1{a}-p/q` -/
+example : urlPath
+    ⟨[⟨false, [.params [⟨[97], .re [120, 43]⟩, ⟨[98], .re [121, 43]⟩], .ident [45],
+               .params [⟨[114], .lit [42, 42]⟩, ⟨[99], .lit [50]⟩]]⟩]⟩
+    [([97], [49]), ([98], [123, 97, 125]), ([114], [112, 47, 113]), ([99], [33])] true =
+    [47, 49, 123, 97, 125, 45, 112, 47, 113] := by
+  rw [urlPath_tokenwise _ _ true (by decide) (by decide)]
+  simp [skeletonToks, skeletonToks.go, segToks, elemToks, laterHoles, regexHoles, orRoot, Tok.subst, B_slash,
+    List.lookup]
+
+/-- `/?{z}`: without the optional segment the URL is the root path `/`, with it `/v` -/
+example : urlPath ⟨[⟨true, [.bind [122]]⟩]⟩ [([122], [118])] false = [47] := by
+  rw [urlPath_tokenwise _ _ false (by decide) (by decide)]
+  simp [skeletonToks, skeletonToks.go, orRoot, Tok.subst, B_slash]
+
+example : urlPath ⟨[⟨true, [.bind [122]]⟩]⟩ [([122], [118])] true = [47, 118] := by
+  rw [urlPath_tokenwise _ _ true (by decide) (by decide)]
+  simp [skeletonToks, skeletonToks.go, segToks, elemToks, orRoot, Tok.subst, B_slash, List.lookup]
+
+/-- `/{p: **, q: /x+/}`: the first value is a literal, so only `p` is a bind — `p ↦ "a/b"` gives
+    `/a/b`, no `{q}` is written -/
+example : urlPath ⟨[⟨false, [.params [⟨[112], .lit [42, 42]⟩, ⟨[113], .re [120, 43]⟩]]⟩]⟩
+    [([112], [97, 47, 98])] true = [47, 97, 47, 98] := by
+  rw [urlPath_tokenwise _ _ true (by decide) (by decide)]
+  simp [skeletonToks, skeletonToks.go, segToks, elemToks, laterHoles, orRoot, Tok.subst, B_slash,
+    List.lookup]
 
 end Flamego.C12
